@@ -119,6 +119,17 @@ pub fn check_c04(c: &TV, acc: &mut Acc, record: bool) -> Verdict {
         Ok(f) => f.bytes,
         Err(e) => return Verdict::Fail(format!("HARNESS: reference encoder rejected a generated value: {e:?}")),
     };
+    if c.ty.ser_only() {
+        // serialize-only shapes: bytes only
+        if record {
+            let class = format!("serialize-only {}", root_class(&c.ty));
+            acc.case(&class, h, bytes.len() >= 2);
+            if acc.wants_sample(&class) {
+                acc.sample(&class, json!({"type": c.ty.render(), "value": c.val.brief(), "writer_hex": hex(&bytes[..bytes.len().min(64)])}));
+            }
+        }
+        return if bytes == reference { Verdict::Pass } else { Verdict::Fail(format!("bytes differ from the format: value {} of {}: got {} expected {}", c.val.brief(), c.ty.render(), hex(&bytes), hex(&reference))) };
+    }
     // ---- decode direction: a form the writer may never emit
     let mut forms = ScriptForms::new(c.forms.clone());
     let alt = match ref_encode_forms(&c.ty, &c.val, &mut forms) {
@@ -229,7 +240,11 @@ pub fn run_c04(cx: &Cx) -> PropResult {
         }
         // derived declarations (records with evolution headers and chunks, enums), at the root and under containers
         let strat = tv_strategy_ext(2, ValCfg { max_len: 5, long: false, ..ValCfg::default() }, true);
-        drive(crate::run::tag_seed(derive_seed(cx.seed, cx.prop, shard as u64, 1), 1), &strat, per_shard / 2, acc, &|c: &TV| to_json(c), &mut |c, a, r| check_c04(c, a, r));
+        if drive(crate::run::tag_seed(derive_seed(cx.seed, cx.prop, shard as u64, 1), 1), &strat, per_shard / 2, acc, &|c: &TV| to_json(c), &mut |c, a, r| check_c04(c, a, r)) {
+            return;
+        }
+        let strat = ser_only_tv_strategy(ValCfg::default());
+        drive(crate::run::tag_seed(derive_seed(cx.seed, cx.prop, shard as u64, 2), 2), &strat, per_shard / 5, acc, &|c: &TV| to_json(c), &mut |c, a, r| check_c04(c, a, r));
     });
     let mut acc = acc;
     reduce_violations(&mut acc, &|c, a, r| check_c04(c, a, r));
@@ -241,7 +256,7 @@ pub fn run_c04(cx: &Cx) -> PropResult {
     let mut r = PropResult::new(
         acc,
         "exploration",
-        "anchors first: the reference decoder must read the Scala-written golden/dataset1.bin completely (242 540 bytes, unknown-length list, evolution header, sorted-constructor enum) to the values spelled out in the repository's golden test and encode the pinned 14-byte Point vector (else exit 2: broken oracle), and desert must read the golden file to the same value. Then cases = (type expression T, value v, form choices). Encode direction: serialize(v) must equal the independent reference encoder byte for byte. Decode direction: the reference encoder renders v with every sequence node independently in known-length or unknown-length form (a form the Rust writer never emits); deserialize must return v. Non-trivial = encoding of >= 2 bytes; distinct by hash of (T, v, forms).",
+        "anchors first: the reference decoder must read the Scala-written golden/dataset1.bin completely (242 540 bytes, unknown-length list, evolution header, sorted-constructor enum) to the values spelled out in the repository's golden test and encode the pinned 14-byte Point vector (else exit 2: broken oracle), and desert must read the golden file to the same value. Then cases = (type expression T, value v, form choices). Encode direction: serialize(v) must equal the independent reference encoder byte for byte (built-in types, derived declarations interpreted and compiled, and the serialize-only shapes str, [T], &T, Rc<str>, Rc<[T]>). Decode direction: the reference encoder renders v with every sequence node independently in known-length or unknown-length form (a form the Rust writer never emits); deserialize must return v. Non-trivial = encoding of >= 2 bytes; distinct by hash of (T, v, forms).",
     );
     r.assumptions = vec!["the reference codec (vmodel::refcodec) is the statement of the format; it shares no code with desert".into()];
     r
@@ -378,4 +393,23 @@ pub fn reduce_violations(acc: &mut Acc, check: &dyn Fn(&TV, &mut Acc, bool) -> V
             v.replay = to_json(&small);
         }
     }
+}
+
+/// shapes that can only be serialized (no BinaryDeserializer impl exists): str, [T], &T, Rc<str>, Rc<[T]>
+pub fn ser_only_tv_strategy(cfg: ValCfg) -> BoxedStrategy<TV> {
+    use std::sync::Arc;
+    let inner = vmodel::gen::any_ty(1);
+    let elem = prop_oneof![3 => inner.clone(), 1 => Just(Ty::U8)];
+    prop_oneof![
+        2 => elem.clone().prop_map(|t| Ty::Slice(Arc::new(t))),
+        1 => Just(Ty::StrRef),
+        1 => Just(Ty::RcStr),
+        2 => elem.prop_map(|t| Ty::RcSlice(Arc::new(t))),
+        2 => inner.clone().prop_map(|t| Ty::Ref(Arc::new(t))),
+        1 => inner.clone().prop_map(|t| Ty::Ref(Arc::new(Ty::Slice(Arc::new(t))))),
+        1 => inner.prop_map(|t| Ty::Vec(Arc::new(Ty::Ref(Arc::new(t))))),
+    ]
+    .prop_flat_map(move |ty| (val_strategy(&ty, cfg), Just(ty)))
+    .prop_map(|(val, ty)| TV { ty, val, forms: vec![] })
+    .boxed()
 }
